@@ -106,6 +106,13 @@ func (s *OpenAPI3Exporter) GenerateOpenAPI3(app *syslwrapper.App) (*openapi3.T, 
 			path = v.Path
 		}
 
+		switch method {
+		case "GET", "PUT", "POST", "DELETE", "PATCH", "HEAD", "OPTIONS", "TRACE", "CONNECT":
+		default:
+			// not a REST endpoint (e.g. the subscription "App -> Event"): AddOperation would panic
+			continue
+		}
+
 		// Map Params
 		operation := openapi3.NewOperation()
 		// Convert to multiline string
